@@ -69,7 +69,10 @@ func vfC06EqualCross(c int) {
 	h := vfShapes()[j].mk(&vfGen{pfx: "h", mode: 2})
 	vfReach("equal-cross")
 	if vfSig(g) != vfSig(h) {
-		vfAssert("equal-different-structure-false", !Equal(g, h))
+		// different kind or nesting: never equal, whatever the coordinates (symbolic on both sides)
+		sg := vfShapes()[i].mk(&vfGen{pfx: "g"})
+		sh := vfShapes()[j].mk(&vfGen{pfx: "h"})
+		vfAssert("equal-different-structure-false", !Equal(sg, sh))
 		return
 	}
 	a, b := vfCoords(g), vfCoords(h)
